@@ -44,7 +44,8 @@ claim("C03",
       "Decides that the errexit exemption flag reaches exactly the exempt contexts (def-use of the params value passed to every "
       "Execute::execute on an if/elif/while/until condition vs body; conditional stores in and-or lists; bang), that errexit and the ERR "
       "trap are applied at exactly one site under the right guards, that command substitution drops errexit on the clone under the "
-      "inherit option, and that the ${…} operator → unset-tolerance table equals the reference.",
+      "inherit option, that ExecutionParameters are only ever cloned outside the reviewed top-level entry points (so the exemption flag "
+      "is inherited by nested contexts), and that the ${…} operator → unset-tolerance table equals the reference.",
       "Trusted: rustc MIR; the AST field of the receiver identifies the syntactic context. Not decided: that the shell stops at the same "
       "command as bash for all programs and option toggles; pipefail status arithmetic.",
       ST + "def-use + dominance on MIR, who-may-call, match-arm table extraction", "DESIGN.md §3 C03")
@@ -59,21 +60,24 @@ claim("C09",
 claim("C10",
       "Decides that redirections are applied only to frame-owned ExecutionParameters (borrow-chain analysis of every setup_redirect "
       "call), that the shell's persistent descriptor table has a closed reviewed writer set, that the noclobber branch cannot reach "
-      "truncate and uses create_new under is_file, and that the here-document writer is dropped before Ok.",
+      "truncate and uses create_new under is_file, that every path probed or opened during redirect set-up was resolved against the shell's "
+      "working directory (the noclobber test inspects the file that is opened), and that the here-document writer is dropped before Ok.",
       "Trusted: rustc MIR; Rust ownership (an owned ExecutionParameters dies with the command). Not decided: left-to-right descriptor "
       "semantics, file contents, here-document tokenizer behaviour.",
       ST + "borrow-root ownership analysis, who-may-call, branch-exclusive reachability", "DESIGN.md §3 C10")
 claim("C11",
       "Decides start-all-before-wait (no wait/poll/join in the spawn loop; spawn dominates wait), drain-before-join and writer-moved for "
-      "command substitution, one status per stage, and that every inline call of a run-to-completion interpreter from the stage "
-      "dispatch functions is under ShellForCommand::ParentShell. The last rule reports the two known deadlock findings.",
+      "command substitution, one status per stage, that no loop UTF-8-decodes the buffer a read call fills (stream data is decoded once), "
+      "and that every inline call of a run-to-completion interpreter from the stage dispatch functions is under "
+      "ShellForCommand::ParentShell. The last rule reports the two known deadlock findings.",
       "Trusted: rustc MIR; a closure passed to tokio::spawn/spawn_blocking runs concurrently, any other call inline. Not decided: byte "
       "conservation, SIGPIPE, liveness under sizes and schedules.",
       ST + "ORDER (dominance) + call-graph with spawn edges + enum-discriminant guards", "DESIGN.md §3 C11")
 claim("C12",
       "Decides that Shell::clone copies every field from self (reviewed exceptions), that no Shell field shares interior-mutable state "
       "with its clone through Arc/Rc (reviewed exception: key bindings), that every process-global mutator API call is in a pre_exec "
-      "callback, behind !is_subshell() or reviewed, and that every subshell-like context runs its body on the clone.",
+      "callback, behind !is_subshell() or reviewed, that every subshell-like context runs its body on the clone, and that a pipeline stage "
+      "is given the invoking shell only on the single-command or lastpipe-last-stage edges.",
       "Trusted: rustc MIR and fully-qualified type strings; external types are opaque except generic arguments. Known findings: umask, "
       "ulimit. Not decided: that every piece of semantic state lives in Shell.",
       ST + "aggregate-field provenance, type walk, who-may-call with dominating guards, forward taint", "DESIGN.md §3 C12")
@@ -104,7 +108,8 @@ claim("C01",
 claim("C04",
       "Decides the quoting-tag mechanism on all paths: tag maps (Unsplittable→Literal, Splittable→Pattern), the tag constructed by every "
       "expand_word_piece arm against a reference table, make_unsplittable on everything leaving double-quote processing, restoration "
-      "of in_double_quotes on every path, split_fields touching only Splittable pieces, literal regex pieces escaped, and a taint rule: "
+      "of in_double_quotes on every path, split_fields touching only Splittable pieces, literal regex pieces escaped, glob activity asked "
+      "only of unquoted (Pattern) pieces, and a taint rule: "
       "no text derived from variable values / positional parameters / command-substitution output reaches a word or program parser "
       "inside brush_core::expansion.",
       "Trusted: rustc MIR; taint is not propagated through the long-lived &mut Shell / &mut WordExpander receivers. Not decided: "
@@ -119,7 +124,8 @@ claim("C06",
 claim("C07",
       "Decides evaluator totality (no trapping i64 operation; div/rem/pow guarded), equality of the precedence!{} table with the bash "
       "reference (levels and associativity), the literal→AST-variant and AST-variant→operation tables, structural short-circuit of && || "
-      "?:, right-hand-side-first assignment, and the dereference depth guard.",
+      "?:, operand order of assignments (plain: value before store; compound `x op= e`: current value of x read before e is evaluated), "
+      "and the dereference depth guard.",
       "Trusted: rustc MIR; peg precedence!{} semantics; the reference table (bash manual). Not decided: literal values, printed results.",
       ST + "MIR operation inventory + grammar table comparison + control dependence", "DESIGN.md §3 C07")
 claim("C08",
